@@ -5,6 +5,9 @@ import (
 	"math/rand"
 	"os"
 	"path/filepath"
+	"regexp"
+	"sort"
+	"strconv"
 	"strings"
 
 	"github.com/Vedant9500/WTF/internal/database"
@@ -67,10 +70,13 @@ func engineSearchInv(ctx *Ctx) {
 		if useShipped && len(words) > 3000 {
 			words = words[:3000]
 		}
-		if g := ctx.G(d); !useShipped && g%4 == 2 && len(cmds) > 0 && len(cmds) < 400 {
+		if g := ctx.G(d); !useShipped && (g%4 == 2 || g%8 == 5) && len(cmds) > 0 && len(cmds) < 400 {
 			// a database with semantic embeddings attached (word vectors and command embeddings next to the binary): ordinary
 			// ones, and files whose numbers are not finite or so large that sums overflow - the answer is still a ranked list of scores
 			fl := []string{"unit", "scaled", "non-finite", "huge"}[(g/4)%4]
+			if g%8 == 5 {
+				fl = "partial" // the word table lacks a third of the database's words: requests made of unknown words only
+			}
 			if attachEmbeddings(ctx, r, db, fl) {
 				dbName += "/embeddings-" + fl
 				ctx.R.Path("databases-with-embeddings", 1)
@@ -421,6 +427,108 @@ func engineSearchInvCLI(ctx *Ctx) {
 					Witness: map[string]interface{}{"case": cs, "stdout": vlib.Trunc(res.Stdout, 3000)}})
 			}
 		}
+		// `wtf pipeline`: the other command that prints a ranked list - with the platform flags every command accepts
+		pcmds := c17UniqueDB(r, []int{12, 40, 120}[d%3], 2)
+		pdbp := filepath.Join(base, "pdb.yml")
+		if vlib.WriteYAML(pdbp, pcmds) == nil {
+			pwords := vlib.DBWords(pcmds)
+			// the words most entries share: requests with more matches than any limit, of which a platform request leaves few
+			freq := map[string]int{}
+			for i := range pcmds {
+				for _, t := range vlib.Tokenize(pcmds[i].Command + " " + pcmds[i].Description) {
+					freq[t]++
+				}
+			}
+			common := append([]string(nil), pwords...)
+			sort.SliceStable(common, func(i, j int) bool { return freq[common[i]] > freq[common[j]] })
+			if len(common) > 6 {
+				common = common[:6]
+			}
+			for qi := 0; qi < ctx.Pick(10, 14); qi++ {
+				q := vlib.GenQuery(r, pwords, 1+r.Intn(2), 0)
+				if qi%2 == 0 && len(common) > 0 {
+					q = common[r.Intn(len(common))]
+				}
+				if strings.TrimSpace(q) == "" {
+					continue
+				}
+				limit := []int{1, 2, 3, 5, 10}[r.Intn(5)]
+				args := []string{"pipeline", "--database", pdbp, "--limit", fmt.Sprint(limit), "-v", "--no-color"}
+				switch r.Intn(5) {
+				case 0:
+					args = append(args, "--all-platforms")
+				case 1:
+					args = append(args, "--platform", []string{"linux", "windows", "macos,linux", "android"}[r.Intn(4)])
+				case 2:
+					args = append(args, "--platform", []string{"linux", "windows", "haiku"}[r.Intn(3)], "--no-cross-platform")
+				case 3:
+					args = append(args, "--no-cross-platform")
+				}
+				args = append(args, "--", q)
+				cs := map[string]interface{}{"db_entries": len(pcmds), "args": args, "query": q, "limit": limit}
+				ctx.R.Begin(cs)
+				ctx.R.Eval(1)
+				res := h.Wtf(ctx.Wtf, nil, args...)
+				if bad, why := res.Crashed(); bad {
+					ctx.R.Violate(vlib.Violation{Property: "C01", Clause: "crash", Path: "cli-pipeline", Detail: why, Witness: map[string]interface{}{"case": cs, "stderr": vlib.Trunc(res.Stderr, 2000)}})
+					continue
+				}
+				var names []string
+				var scores []float64
+				lines := strings.Split(res.Stdout, "\n")
+				for i, l := range lines {
+					if m := c01PipeHead.FindStringSubmatch(l); m != nil && len(names)+1 == atoiOr(m[1], -1) {
+						desc := ""
+						if i+1 < len(lines) {
+							desc = strings.TrimSpace(lines[i+1])
+						}
+						names = append(names, m[2]+" / "+desc)
+					}
+					if m := c01PipeScore.FindStringSubmatch(l); m != nil {
+						if f, err := strconv.ParseFloat(m[1], 64); err == nil {
+							scores = append(scores, f)
+						}
+					}
+				}
+				ctx.R.Path("cli-pipeline-runs", 1)
+				if len(names) > 0 {
+					ctx.R.Path("cli-pipeline-runs-with-results", 1)
+					ctx.R.Nontriv("cli-pipeline", d, q, fmt.Sprint(args))
+				}
+				vio := func(clause, detail string) {
+					ctx.R.Violate(vlib.Violation{Property: "C01", Clause: clause, Path: "cli-pipeline", Detail: detail, Witness: map[string]interface{}{"case": cs, "stdout": vlib.Trunc(res.Stdout, 3000)}})
+				}
+				if len(names) > limit {
+					vio("limit", fmt.Sprintf("wtf pipeline printed %d results, --limit %d", len(names), limit))
+				}
+				seen := map[string]bool{}
+				for _, n := range names {
+					if seen[n] {
+						vio("duplicate", fmt.Sprintf("wtf pipeline lists the entry %s twice (every entry of the database has a command string of its own)", vlib.Q(vlib.Trunc(n, 100))))
+						break
+					}
+					seen[n] = true
+				}
+				for i := 1; i < len(scores) && len(scores) == len(names); i++ {
+					if scores[i] > scores[i-1] {
+						vio("order", fmt.Sprintf("wtf pipeline prints relevance %v at rank %d above %v at rank %d", scores[i-1], i, scores[i], i+1))
+						break
+					}
+				}
+			}
+		}
 		os.RemoveAll(base)
 	}
+}
+
+var (
+	c01PipeHead  = regexp.MustCompile(`^(\d+)\. (.*)$`)
+	c01PipeScore = regexp.MustCompile(`Relevance Score: ([-+0-9.eE]+|NaN|[+-]?Inf)`)
+)
+
+func atoiOr(s string, d int) int {
+	if n, err := strconv.Atoi(s); err == nil {
+		return n
+	}
+	return d
 }
